@@ -494,6 +494,55 @@ def _U(N, k):
     return _UC[(N, k)]
 
 
+def fn_single_masked(items):
+    """item = [pkg, N, nn, mi, lo, hi]: maps #lo..hi-1 (step 1 for nn=1; the caller strides nn=2) of nn qubits through
+    the mi-th mask of N qubits applied to SINGLE operand objects - every Pauli of the group (all 4 phases), and for
+    pyclifford every PauliMonomial - by transform_by(map, mask); also the unmasked call with the embedded map.
+    Reference: the embedded map's homomorphism; the coefficient of a monomial is untouched."""
+    n_ = nt = 0
+    viol = []
+    for pkg, N, nn, mi, lo, hi in items:
+        qs = list(itertools.combinations(range(N), nn))[mi]
+        mb = np.zeros(N, dtype=bool)
+        mb[list(qs)] = True
+        maps = dom.valid_maps(nn)
+        Gs, Ps = group_arrays(N)
+        py = pkg == 'py'
+        for k in range(lo, min(hi, len(maps))):
+            t, s_ = maps[k]
+            T, S = embed_map(t, s_, list(qs), N)
+            eg, ep = ref.map_apply(T, S, Gs, Ps)
+            kinds = ['Pauli', 'PauliMonomial'] if py else ['Pauli']
+            for kind in kinds:
+                for j in range(len(Gs)):
+                    try:
+                        if py:
+                            M = lib.CM(t, s_)
+                            o = lib.P(Gs[j], Ps[j]) if kind == 'Pauli' else lib.MONO(Gs[j], Ps[j], 1 + 2j)
+                            o.transform_by(M, mask=mb.copy())
+                            og, op = np.array(o.g).astype(np.int64), int(o.p) % 4
+                        else:
+                            m = lib.torch_mods()
+                            M = lib.tCM(t, s_)
+                            o = lib.tP(Gs[j], Ps[j])
+                            o.transform_by(M, mask=m['torch'].tensor(mb.copy()))
+                            og, op = lib.t2n(o.g).reshape(-1), int(lib.t2n(o.p)) % 4
+                    except Exception as e:
+                        viol.append(V('C03/single-masked/%s/%s/raises-%s' % (pkg, kind, type(e).__name__), [pkg, N, nn, mi, k, k + 1], '%s.transform_by(map, mask=%s) raised %s' % (kind, list(qs), e)))
+                        break
+                    n_ += 1
+                    nt += 1
+                    if (og != eg[j]).any() or op != ep[j]:
+                        viol.append(V('C03/single-masked/%s/%s/%s' % (pkg, kind, 'string' if (og != eg[j]).any() else 'phase'), [pkg, N, nn, mi, k, k + 1],
+                                      '%s %s: single %s %s .transform_by(map %s signs %s, mask=%s) -> %s, reference %s' % (pkg, 'N=%d' % N, kind, ref.g_to_str(Gs[j], Ps[j]),
+                                          np.asarray(t).tolist(), np.asarray(s_).tolist(), list(qs), ref.g_to_str(og, op), ref.g_to_str(eg[j], ep[j]))))
+                        break
+                    if kind == 'PauliMonomial' and complex(o.c) != 1 + 2j:
+                        viol.append(V('C03/single-masked/%s/PauliMonomial/coefficient' % pkg, [pkg, N, nn, mi, k, k + 1], 'coefficient changed to %r' % (o.c,)))
+                        break
+    return {'n': n_, 'nt': nt, 'viol': viol}
+
+
 def legs(tier):
     out = []
     dom.valid_maps(1)
@@ -544,4 +593,19 @@ def legs(tier):
                    bound='torchclifford: transform_by / rotate_by, unmasked and through every 1- and 2-qubit mask, on step-sliced, transposed and column-window operand tensors'))
     out.append(Leg('torch_masks', fn_masks, tm, chunk=1,
                    bound='torchclifford: masked transform_by: all 24 one-qubit maps at every position of N=2,3,4; 72 two-qubit maps on each of the 3 masks of N=3; 6 on each of the 6 two-qubit masks of N=4'))
+    sm = []
+    for pkg in ('py', 'torch'):
+        for N in (2, 3):
+            for nn in (1, 2):
+                if nn > N:
+                    continue
+                nm = len(list(itertools.combinations(range(N), nn)))
+                for mi in range(nm):
+                    if nn == 1:
+                        sm += [[pkg, N, 1, mi, lo, lo + 6] for lo in range(0, 24, 6)] if pkg == 'py' else [[pkg, N, 1, mi, lo, lo + 3] for lo in range(0, 24, 6)]
+                    else:
+                        stride = 251 if pkg == 'py' else 1151
+                        sm += [[pkg, N, 2, mi, lo, lo + 1] for lo in range(mi * 7, 11520, stride)]
+    out.append(Leg('single_operands_masked', fn_single_masked, sm, chunk=2, exhaustive=False, supplementary=True,
+                   bound='both packages, N=2,3, every mask of 1 and 2 qubits (the N=2 all-True mask and the N=3 mask with a hole included): one-qubit maps (py: all 24, torch: 12) and a stride of the 11520 two-qubit maps applied by transform_by(map, mask) to every SINGLE Pauli (4 phases) and, in pyclifford, PauliMonomial of the group'))
     return out
